@@ -316,8 +316,8 @@ def render_fixed(items, breaks=(), comment_style=0, seqfield=False, inline_doc=F
     return "\n".join(out) + "\n"
 
 
-def tree_of(files):
-    r = fordrun.build_fast(files, dict(display=["public", "private", "protected"], proc_internals=True))
+def tree_of(files, **extra):
+    r = fordrun.build_fast(files, dict(display=["public", "private", "protected"], proc_internals=True, **extra))
     if r.error is not None or not r.project or not r.project.files or "ERROR in file" in r.log or "Error parsing" in r.log:
         return None, (repr(r.error) + " " + r.log[-300:])
     recs = canon.tree(r.project)
@@ -374,9 +374,14 @@ def tree_shard(args):
         if tier == "thorough":
             for b1, b2 in itertools.combinations(allbreaks[:: max(1, len(allbreaks) // 25)], 2):
                 variants.append(("break2", dict(breaks=(b1, b2))))
+        # the same fixed-form text under each extension that selects fixed form by default
+        for ext in ("for", "F", "FOR"):
+            variants.append((f"ext-{ext}", dict(_ext=ext, comment_style=1, **(dict(breaks=(allbreaks[len(allbreaks) // 2],)) if allbreaks else {}))))
         for vname, kw in variants:
+            kw = dict(kw)
+            ext = kw.pop("_ext", "f")
             fixed = render_fixed(items, **kw)
-            got, err = tree_of({"src/m.f": fixed})
+            got, err = tree_of({f"src/m.{ext}": fixed})
             st.evaluations += 1
             st.transitions += 1
             f = dict(variant=vname, unit=case[1], features="")
@@ -401,12 +406,54 @@ def tree_shard(args):
     return st
 
 
+def include_cases(st: Stats):
+    """INCLUDE in a fixed-form file: the included text is fixed form too and follows the same column rules
+    (limit on: columns 73+ ignored; limit off: kept)."""
+    free = {"src/m.f90": "module m\n  implicit none\n  include 'decl.inc'\ncontains\n  subroutine s(a)\n    integer :: a\n    include 'body.inc'\n  end subroutine s\nend module m\n",
+            "src/decl.inc": "integer :: alpha_value = 1\n!! doc of alpha\ninteger :: gamma_value = 3\n!! doc of gamma\n",
+            "src/body.inc": "integer :: local_value\n"}
+    base, err = tree_of(free)
+    for limit in (True, False):
+        if limit:
+            decl = "      integer :: alpha_value = 1".ljust(72) + "SEQ00010\n!! doc of alpha\n      integer :: gamma_value = 3\n!! doc of gamma\n"
+            body = "      integer :: local_value".ljust(72) + "SEQ1\n"
+        else:
+            decl = "      integer :: alpha_value = 1\n!! doc of alpha\n" + " " * 50 + "integer :: gamma_value = 3\n!! doc of gamma\n"
+            body = " " * 55 + "integer :: local_value\n"
+        fixed = {"src/m.f": "      module m\n      implicit none\n      include 'decl.inc'\n      contains\n      subroutine s(a)\n      integer :: a\n      include 'body.inc'\n"
+                            "      end subroutine s\n      end module m\n",
+                 "src/decl.inc": decl, "src/body.inc": body}
+        got, err2 = tree_of(fixed, fixed_length_limit=limit)
+        st.evaluations += 1
+        st.transitions += 1
+        stratum = "tree/include/" + ("limit-on" if limit else "limit-off")
+        f = dict(variant="include", unit="module", features="", length_limit=limit)
+        inp = dict(variant="include", length_limit=limit, fixed=fixed, free=free)
+        st.nontrivial.add(core.digest(["include", limit]))
+        if base is None or got is None:
+            st.violation("ford-failed-on-fixed-form", stratum, f, inp, err or err2, "parses like the free-form file")
+            st.stratum(stratum, 1)
+            continue
+        d = canon.diff(got, base) or canon.diff(base, got)
+        if d:
+            what, key, detail = d[0]
+            st.violation("tree-differs-from-free-form", stratum, dict(f, diff=what, entity_kind=key[1]), inp, dict(diff=what, key=list(key), detail=detail), "same tree as free form")
+            st.stratum(stratum, 1)
+        else:
+            st.stratum(stratum, 0)
+
+
 def replay(path):
     import json
 
     core.use_repo()
     rec = json.loads(open(path).read())
     st = Stats()
+    if rec["input"].get("variant") == "include":
+        include_cases(st)
+        for v in st.violations:
+            print("REPRODUCED", v["clause"], v["observed"])
+        return 1 if st.violations else 0
     if "lines" in rec["input"]:
         lines = rec["input"]["lines"]
         print("\n".join(lines))
@@ -449,6 +496,9 @@ def main(tier, replay_path=None):
     n = core.WORKERS * 4
     for st in core.pmap(tree_shard, [(c, tier) for c in (progs[i::n] for i in range(n)) if c]):
         total.merge(st)
+    inc = Stats()
+    include_cases(inc)
+    total.merge(inc)
     return core.finish(
         PROP, tier, "model_checking", total, t0,
         rule=(f"(a) every sequence of <= {L} fixed-form lines over {len(LINES)} line classes (length limit on; also off when a long line is present) against a reference "
